@@ -1,5 +1,5 @@
 //! C04: untrusted bytes never crash the reader. Every case runs in a forked child with a panic hook,
-//! a counting allocator (flags any single request above 64 MiB + 16·len) and RLIMIT_AS, with a logger
+//! a counting allocator (flags any single request above 4 MiB + 16·len) and RLIMIT_AS, with a logger
 //! at Debug level installed (some code only runs when logging is enabled).
 //! `hostile BYTES` → `parse=<c> meta=<c> acc=<c> digests=<c> sig=<c> keyids=<c> files=<c>` with
 //! c ∈ ok | err | panic | skip; or `abort` (child died) / `alloc-excess`; plus `iter=ok|runaway|panic|skip`: a consumer
@@ -57,16 +57,31 @@ fn cls<T, E>(r: Result<Result<T, E>, String>) -> &'static str {
     match r { Ok(Ok(_)) => "ok", Ok(Err(_)) => "err", Err(_) => "panic" }
 }
 
+/// which stage first tripped the allocation limit (set by `mark`)
+static EXCESS_AT: std::sync::Mutex<Option<&'static str>> = std::sync::Mutex::new(None);
+fn mark(stage: &'static str) {
+    if ALLOC_EXCESS.load(Ordering::Relaxed) {
+        let mut g = EXCESS_AT.lock().unwrap();
+        if g.is_none() { *g = Some(stage); }
+    }
+}
+
 fn stages(bytes: &[u8]) -> String {
     let meta = guarded(std::panic::AssertUnwindSafe(|| rpm::PackageMetadata::parse(&mut &bytes[..]).map(|_| ())));
+    mark("meta");
     let pkg = guarded(std::panic::AssertUnwindSafe(|| rpm::Package::parse(&mut &bytes[..])));
+    mark("parse");
     let mut out = format!("parse={} meta={}", cls(pkg.as_ref().map(|r| r.as_ref()).map_err(|e| e.clone())), cls(meta));
     match pkg {
         Ok(Ok(p)) => {
             let acc = guarded(std::panic::AssertUnwindSafe(|| { let _ = crate::c05::dump(&p.metadata); Ok::<(), ()>(()) }));
+            mark("acc");
             let dig = guarded(std::panic::AssertUnwindSafe(|| p.verify_digests()));
+            mark("digests");
             let sig = guarded(std::panic::AssertUnwindSafe(|| p.verify_signature(RejectAll)));
+            mark("sig");
             let key = guarded(std::panic::AssertUnwindSafe(|| p.signature_key_ids()));
+            mark("keyids");
             let uncompressed = matches!(p.metadata.get_payload_compressor(), Ok(rpm::CompressionType::None));
             let files = if uncompressed {
                 cls(guarded(std::panic::AssertUnwindSafe(|| -> Result<(), rpm::Error> {
@@ -76,6 +91,7 @@ fn stages(bytes: &[u8]) -> String {
                     Ok(())
                 })))
             } else { "skip" };
+            mark("files");
             let iter = if uncompressed {
                 match guarded(std::panic::AssertUnwindSafe(|| {
                     let cap = p.metadata.get_file_entries().map(|v| v.len()).unwrap_or(0) + 16;
@@ -89,6 +105,7 @@ fn stages(bytes: &[u8]) -> String {
                     Err(_) => "panic",
                 }
             } else { "skip" };
+            mark("iter");
             out.push_str(&format!(" acc={} digests={} sig={} keyids={} files={} iter={}", cls(acc), cls(dig), cls(sig), cls(key), files, iter));
         }
         _ => out.push_str(" acc=skip digests=skip sig=skip keyids=skip files=skip iter=skip"),
@@ -109,11 +126,11 @@ fn in_child(bytes: &[u8]) -> String {
             let lim = libc::rlimit { rlim_cur: 3 << 30, rlim_max: 3 << 30 };
             libc::setrlimit(libc::RLIMIT_AS, &lim);
             ALLOC_EXCESS.store(false, Ordering::Relaxed);
-            ALLOC_LIMIT.store((64 << 20) + 16 * bytes.len(), Ordering::Relaxed);
+            ALLOC_LIMIT.store((4 << 20) + 16 * bytes.len(), Ordering::Relaxed);
             let mut s = stages(bytes);
             ALLOC_LIMIT.store(usize::MAX, Ordering::Relaxed);
             if ALLOC_EXCESS.load(Ordering::Relaxed) {
-                s = format!("alloc-excess {}", s);
+                s = format!("alloc-excess:{} {}", EXCESS_AT.lock().unwrap().unwrap_or("?"), s);
             }
             libc::write(fds[1], s.as_ptr() as *const libc::c_void, s.len());
             libc::_exit(0);
@@ -139,6 +156,13 @@ fn in_child(bytes: &[u8]) -> String {
 
 pub fn eval(op: &str, a: &[&str]) -> Option<String> {
     match op {
+        "pgpframes" => {
+            let blob = arg_bytes(a[0]);
+            Some(match rpm::verif_hooks::pgp_split_packets(&blob) {
+                None => "none".into(),
+                Some(l) => format!("ok:{}", l.iter().map(|x| x.to_string()).collect::<Vec<_>>().join(",")),
+            })
+        }
         "hostile" => {
             let _ = log::set_logger(&LOGGER);
             log::set_max_level(log::LevelFilter::Debug);
@@ -211,6 +235,64 @@ pub fn gen(ctx: &mut Ctx) {
                     ctx.req(&format!("hostile {}", hx(&stripped_pkg(&[3, a], present, &|i| i as u32, trailer))));
                     ctx.req(&format!("hostile {}", hx(&stripped_pkg(&[a, 2], present, &|i| 1 - i as u32, trailer))));
                 }
+            }
+        }
+    }
+    if si == 0 {
+        // OpenPGP framing of signature blobs: every blob of up to 3 bytes over the bytes that matter, longer
+        // structured ones, and the same blobs inside packages under every signature tag (key ids, verification)
+        let alpha: [u8; 20] = [0x00, 0x01, 0x05, 0x3b, 0x7f, 0x80, 0x88, 0x89, 0x8a, 0x8b, 0x96, 0xbf, 0xc0, 0xc2, 0xdf, 0xe0, 0xe6, 0xfe, 0xff, 0x02];
+        ctx.req("pgpframes -");
+        for &a in &alpha {
+            ctx.req(&format!("pgpframes {}", hx(&[a])));
+            for &b in &alpha {
+                ctx.req(&format!("pgpframes {}", hx(&[a, b])));
+                for &c in &alpha {
+                    ctx.req(&format!("pgpframes {}", hx(&[a, b, c])));
+                }
+            }
+        }
+        let lead = gen_lead(&mut Rng::new(11), false);
+        let mut g = Rng::new(ctx.seed ^ 0x9697);
+        for i in 0..ctx.q(1500u64, 30_000) {
+            let mut blob = Vec::new();
+            for _ in 0..(1 + g.below(3)) {
+                let body = g.below(12) as usize;
+                let declared: u64 = match g.below(6) { 0 => g.next() >> g.below(64), 1 => body as u64 + 1, 2 => body.saturating_sub(1) as u64, _ => body as u64 };
+                match g.below(7) {
+                    0 => { blob.push(0x88); blob.push(declared as u8); }                                   // old, 1-octet length
+                    1 => { blob.push(0x89); blob.extend_from_slice(&(declared as u16).to_be_bytes()); }    // old, 2 octets
+                    2 => { blob.push(0x8a); blob.extend_from_slice(&(declared as u32).to_be_bytes()); }    // old, 4 octets
+                    3 => { blob.push(0x8b); }                                                               // old, indeterminate
+                    4 => { blob.push(0xc2); blob.push((declared % 192) as u8); }                           // new, 1 octet
+                    5 => { blob.push(0xc2); blob.push(192 + (declared % 32) as u8); blob.push(declared as u8); } // new, 2 octets / partial
+                    _ => { blob.push(0xc2); blob.push(255); blob.extend_from_slice(&(declared as u32).to_be_bytes()); }
+                }
+                let k = body;
+                blob.extend(g.bytes(k));
+            }
+            if g.chance(1, 5) { let cut = g.below(blob.len() as u64 + 1) as usize; blob.truncate(cut); }
+            ctx.req(&format!("pgpframes {}", hx(&blob)));
+            if i % 3 == 0 {
+                let mut s = GHeader::new();
+                match g.below(4) {
+                    0 => { s.push(268, 7, &TData::Bytes(blob.clone())); }
+                    1 => { s.push(267, 7, &TData::Bytes(blob.clone())); }
+                    2 => { s.push(1002, 7, &TData::Bytes(blob.clone())); }
+                    _ => {
+                        // RPMSIGTAG_OPENPGP carries base64 text
+                        const B64: &[u8; 64] = b"ABCDEFGHIJKLMNOPQRSTUVWXYZabcdefghijklmnopqrstuvwxyz0123456789+/";
+                        let mut t = Vec::new();
+                        for ch in blob.chunks(3) {
+                            let n = (ch[0] as u32) << 16 | (*ch.get(1).unwrap_or(&0) as u32) << 8 | *ch.get(2).unwrap_or(&0) as u32;
+                            t.push(B64[(n >> 18) as usize & 63]); t.push(B64[(n >> 12) as usize & 63]);
+                            t.push(if ch.len() > 1 { B64[(n >> 6) as usize & 63] } else { b'=' });
+                            t.push(if ch.len() > 2 { B64[n as usize & 63] } else { b'=' });
+                        }
+                        s.push(278, 8, &TData::Strs(vec![t]));
+                    }
+                }
+                ctx.req(&format!("hostile {}", hx(&assemble(&lead, &s, 0, &GHeader::new(), &[]))));
             }
         }
     }
